@@ -45,6 +45,7 @@ pub struct Profile {
     pub p_odd_resources: u64,
     pub prio_levels: i32,
     pub p_pct: u64,
+    pub p_uniform: u64,
     pub prefill: (u32, u32),
 }
 
@@ -86,6 +87,7 @@ impl Profile {
             p_odd_resources: 40,
             prio_levels: 4,
             p_pct: 40,
+            p_uniform: 25,
             prefill: (1, 3),
         }
     }
@@ -121,6 +123,7 @@ impl Profile {
             }
             "C06" => {
                 p.name = "C06";
+                p.p_uniform = 45;
                 p.prefill = (1, 4);
                 p.p_graph = 15;
                 p.max_tasks_per_submit = 24;
@@ -139,6 +142,7 @@ impl Profile {
             }
             "C08" => {
                 p.name = "C08";
+                p.p_uniform = 45;
                 p.w_cancel = 9;
                 p.prefill = (1, 4);
                 p.max_tasks_per_submit = 20;
@@ -304,7 +308,49 @@ fn gen_variant(rng: &mut Rng, p: &Profile) -> VariantSpec {
     }
 }
 
+thread_local! {
+    /// request shapes already used in the current run: jobs share shapes often, so that tasks of
+    /// different jobs meet in the same scheduler queues and prefill sets
+    static REQ_POOL: std::cell::RefCell<Vec<ReqSpec>> = const { std::cell::RefCell::new(Vec::new()) };
+}
+
+thread_local! {
+    /// "uniform" runs: (almost) all jobs use one request shape and one priority, a few tasks have a
+    /// high priority; tasks of different jobs then share queues, prefill sets and retractions
+    static UNIFORM: std::cell::Cell<bool> = const { std::cell::Cell::new(false) };
+}
+
+pub fn reset_req_pool() {
+    REQ_POOL.with(|p| p.borrow_mut().clear());
+}
+
 pub fn gen_req(rng: &mut Rng, p: &Profile) -> ReqSpec {
+    let reuse = if UNIFORM.with(|u| u.get()) { 92 } else { 55 };
+    let pooled: Option<ReqSpec> = REQ_POOL.with(|pool| {
+        let pool = pool.borrow();
+        if UNIFORM.with(|u| u.get()) && !pool.is_empty() && rng.chance(reuse, 100) {
+            return Some(pool[0].clone());
+        }
+        if !pool.is_empty() && rng.chance(reuse, 100) {
+            Some(rng.pick(&pool).clone())
+        } else {
+            None
+        }
+    });
+    if let Some(r) = pooled {
+        return r;
+    }
+    let r = gen_req_fresh(rng, p);
+    REQ_POOL.with(|pool| {
+        let mut pool = pool.borrow_mut();
+        if pool.len() < 4 {
+            pool.push(r.clone());
+        }
+    });
+    r
+}
+
+fn gen_req_fresh(rng: &mut Rng, p: &Profile) -> ReqSpec {
     if rng.chance(p.p_multinode, 100) {
         return ReqSpec {
             variants: vec![VariantSpec {
@@ -325,8 +371,13 @@ pub fn gen_req(rng: &mut Rng, p: &Profile) -> ReqSpec {
 }
 
 fn gen_attrs(rng: &mut Rng, p: &Profile) -> TaskAttrs {
+    let prio = if UNIFORM.with(|u| u.get()) {
+        if rng.chance(85, 100) { 0 } else { 3 }
+    } else {
+        rng.below(p.prio_levels.max(1) as u64) as i32
+    };
     TaskAttrs {
-        prio: rng.below(p.prio_levels.max(1) as u64) as i32,
+        prio,
         time_limit_s: rng
             .chance(p.p_time_limit, 100)
             .then(|| *rng.pick(&[4u64, 15, 50])),
@@ -504,7 +555,9 @@ pub struct Generator {
 
 impl Generator {
     pub fn new(seed: u64, profile: Profile) -> Generator {
+        reset_req_pool();
         let mut rng = Rng::new(seed);
+        UNIFORM.with(|u| u.set(rng.chance(profile.p_uniform, 100)));
         let n_actions = rng.range(profile.actions.0, profile.actions.1);
         let delivery = if rng.chance(profile.p_pct, 100) {
             let d = rng.range(1, 4);
@@ -587,9 +640,33 @@ impl Generator {
             .filter(|c| c.state == ClientState::Waiting)
             .count();
         let can_request = n_waiting_clients < 3;
+        // state-aware fault placement: retractions in flight are the rarest window, so cancels and
+        // kills are aimed at the jobs/workers involved in one more often
+        let (hot_jobs, hot_workers): (Vec<Jid>, Vec<Wid>) = {
+            let core = sim.core_snapshot();
+            let mut hj = Vec::new();
+            let mut hw = Vec::new();
+            for t in &core.tasks {
+                if let tako::verif::TaskStateSnapshot::Retracting { worker_id } = &t.state {
+                    hj.push(t.id.job_id().as_num());
+                    hw.push(worker_id.as_num());
+                }
+            }
+            for (_, w, _) in &core.redirects {
+                hw.push(w.as_num());
+            }
+            hj.sort_unstable();
+            hj.dedup();
+            hw.sort_unstable();
+            hw.dedup();
+            hw.retain(|w| sim.workers.get(w).map(|h| !h.stopped).unwrap_or(false));
+            (hj, hw)
+        };
+        let hot = !hot_jobs.is_empty();
+        let boost = |w: u32, f: u32| if hot { w * f } else { w };
         let weights: Vec<u32> = vec![
             /* 0 connect */ if n_workers < p.max_workers { p.w_connect } else { 0 },
-            /* 1 kill */ if n_workers > 0 { p.w_kill } else { 0 },
+            /* 1 kill */ if n_workers > 0 { boost(p.w_kill, 2) } else { 0 },
             /* 2 deliver */ if has_link { p.w_deliver } else { 0 },
             /* 3 sched */ if sim.inc.server.need_scheduling() { p.w_sched } else { 0 },
             /* 4 finish */ if !open_execs.is_empty() { p.w_finish } else { 0 },
@@ -598,7 +675,7 @@ impl Generator {
             /* 7 submit */ if can_request { p.w_submit } else { 0 },
             /* 8 open */ if can_request && jobs.len() < p.max_jobs { p.w_open } else { 0 },
             /* 9 close */ if can_request && !jobs.is_empty() { p.w_close } else { 0 },
-            /* 10 cancel */ if can_request && !jobs.is_empty() { p.w_cancel } else { 0 },
+            /* 10 cancel */ if can_request && !jobs.is_empty() { boost(p.w_cancel, 4) } else { 0 },
             /* 11 forget */ if can_request && !jobs.is_empty() { p.w_forget } else { 0 },
             /* 12 query */ if can_request { p.w_query } else { 0 },
             /* 13 stop worker */ if can_request && n_workers > 0 { p.w_stop_worker } else { 0 },
@@ -623,7 +700,11 @@ impl Generator {
         let action = match choice {
             0 => Action::Connect(gen_worker_spec(rng, &p, None)),
             1 => {
-                let w = *rng.pick(&live_workers);
+                let w = if !hot_workers.is_empty() && rng.chance(50, 100) {
+                    *rng.pick(&hot_workers)
+                } else {
+                    *rng.pick(&live_workers)
+                };
                 let reason = if rng.chance(70, 100) {
                     Reason::ConnectionLost
                 } else {
@@ -700,7 +781,11 @@ impl Generator {
             10 => Action::Req {
                 client: usize::MAX,
                 req: ClientReq::Cancel {
-                    job: pick_job(rng, &jobs),
+                    job: if hot && rng.chance(60, 100) {
+                        *rng.pick(&hot_jobs)
+                    } else {
+                        pick_job(rng, &jobs)
+                    },
                 },
             },
             11 => Action::Req {
